@@ -13,6 +13,7 @@ import (
 	authtypes "github.com/cosmos/cosmos-sdk/x/auth/types"
 	"pgregory.net/rapid"
 
+	"github.com/jackalLabs/canine-chain/v4/x/storage"
 	storagetypes "github.com/jackalLabs/canine-chain/v4/x/storage/types"
 
 	"verifharness/chain"
@@ -25,6 +26,8 @@ type c15World struct {
 	trace                    []string
 	recorded                 map[string]int64 // model: collateral locked per registered provider
 	shutdownAfterPriceChange bool
+	sw                       *storWorld // the same fork seen as a storage world (files, proofs, reward blocks)
+	burns                    int
 	priceChangedSince        map[string]bool
 }
 
@@ -152,13 +155,15 @@ func (w *c15World) setPrice(p int64) {
 
 func TestC15(t *testing.T) {
 	rec := ev.For("C15")
-	rec.Describe("stateful histories of init-provider / shutdown / re-init / shutdown-again by 4 accounts (balances around the price) interleaved with CollateralPrice parameter changes (up and down), on a fork of the real app with the real bank keeper. After every step: escrow account balance == sum of Collateral records == model; init debits exactly the current price; shutdown credits exactly the recorded amount and removes provider and record; shutdown by a non-provider pays nothing. Non-trivial = a successful shutdown after the price changed since that provider's init; distinct = distinct traces.",
+	rec.Describe("stateful histories of init-provider / shutdown / re-init / shutdown-again by 4 accounts (balances around the price) interleaved with CollateralPrice parameter changes (up and down) and with storage activity (a customer's files taken by the registered providers, which keep proving or fall silent while reward blocks raise their burn counters), on a fork of the real app with the real bank keeper. After every step: escrow account balance == sum of Collateral records == model; init debits exactly the current price; shutdown credits exactly the recorded amount and removes provider and record; shutdown by a non-provider pays nothing; at the end of every history the storage genesis is exported and imported into a fresh store, where the records must still add up to the escrow balance. Non-trivial = a successful shutdown after the price changed since that provider's init; distinct = distinct traces.",
 		"CollateralPrice is changed through the keeper's SetParams with values its validator accepts (> 1), standing in for governance")
-	c := chain.New(chain.GenesisOpts{NumAccounts: 4, Balance: sdk.NewCoins(sdk.NewInt64Coin("ujkl", 30_000))})
+	c := chain.New(chain.GenesisOpts{NumAccounts: 4, Balance: sdk.NewCoins(sdk.NewInt64Coin("ujkl", 30_000)), Faucet: sdk.NewCoins(sdk.NewInt64Coin("ujkl", 1_000_000_000_000))})
 	defer c.Close()
 	newWorld := func() *c15World {
 		w := &c15World{c: c, f: c.Fork(5, chain.GenesisTime.Add(time.Minute)), recorded: map[string]int64{}, priceChangedSince: map[string]bool{}}
 		w.setPrice(10_000)
+		w.sw = &storWorld{c: c, f: w.f}
+		w.sw.setParams(func(p *storagetypes.Params) { p.ChunkSize, p.ProofWindow, p.CheckWindow = 1024, 4, 6 })
 		return w
 	}
 	// plain regression-style scenario (no library): init at P1, lower the price, shutdown
@@ -183,7 +188,7 @@ func TestC15(t *testing.T) {
 	if os_only_regress() {
 		return
 	}
-	search(t, rec, "history", budget(3000, 800000), 25, func(rt *rapid.T) {
+	search(t, rec, "history", budget(2000, 500000), 25, func(rt *rapid.T) {
 		w := newWorld()
 		fail := func(sig, msg string) {
 			if sig != "" {
@@ -208,11 +213,86 @@ func TestC15(t *testing.T) {
 					fail(w.shutdown(a))
 				}
 			},
+			// storage activity around the providers: a customer's files are taken by the registered providers, which then
+			// keep proving or fall silent while reward blocks pass (their burn counters rise); none of that may touch
+			// the collateral records or the escrow
+			"storeFiles": func(rt *rapid.T) {
+				owner := chain.Acc(20)
+				if _, has := w.c.App.StorageKeeper.GetStoragePaymentInfo(w.f.Ctx, owner.Bech); !has {
+					w.f.Fund(owner.Addr, sdk.NewCoins(sdk.NewInt64Coin("ujkl", 1_000_000_000)))
+					w.sw.buyStorage(owner, owner.Bech, 30, 1_000_000_000, "")
+				}
+				for i, n := 0, rapid.IntRange(1, 3).Draw(rt, "files"); i < n; i++ {
+					f, r := w.sw.postFile(owner, append([]byte{byte(len(w.sw.files) + 1)}, c02Content(rapid.Int64Range(1, 2000).Draw(rt, "size"))...), 3, 0)
+					if !r.OK() {
+						continue
+					}
+					for k := 0; k < 4; k++ {
+						if _, registered := w.recorded[chain.Acc(k).Bech]; registered && rapid.IntRange(0, 3).Draw(rt, "takes") > 0 {
+							w.sw.honestProve(chain.Acc(k), f)
+						}
+					}
+				}
+				w.trace = append(w.trace, w.sw.trace...)
+				w.sw.trace = nil
+			},
+			"blocks": func(rt *rapid.T) {
+				n := rapid.IntRange(1, 14).Draw(rt, "blocks")
+				proving := rapid.Bool().Draw(rt, "keepProving")
+				for i := 0; i < n; i++ {
+					w.f.SetBlock(w.f.Height()+1, w.f.Time().Add(6*time.Second))
+					if bb := w.f.BeginCustom(false, true); bb.Panic != nil {
+						rt.Skip() // C05's subject
+					}
+					if proving {
+						for _, f := range w.sw.files {
+							for k := 0; k < 4; k++ {
+								if _, listed := w.sw.challenge(chain.Acc(k).Bech, f); listed {
+									w.sw.honestProve(chain.Acc(k), f)
+								}
+							}
+						}
+					}
+				}
+				w.sw.trace = nil
+				burned := 0
+				for _, p := range w.c.App.StorageKeeper.GetAllProviders(w.f.Ctx) {
+					if p.BurnedContracts != "0" && p.BurnedContracts != "" {
+						burned++
+					}
+				}
+				if burned > w.burns {
+					w.burns = burned
+				}
+				w.logf("%d blocks pass (providers keep proving: %v); providers with burned contracts: %d", n, proving, burned)
+			},
 			"price": func(rt *rapid.T) {
 				w.setPrice(rapid.SampledFrom([]int64{2, 3, 4_000, 9_999, 10_000, 10_001, 15_000, 29_999, 30_000, 30_001, 1_000_000}).Draw(rt, "price"))
 			},
 			"": func(rt *rapid.T) { fail(w.invariant()) },
 		})
+		if w.burns > 0 {
+			rec.Count("histories-with-burned-contracts")
+		}
+		// "always" includes a restart from an exported genesis: the bank module carries the escrow balance over
+		// unchanged, so the collateral records that come back from the storage module's export/import must still add up to it
+		{
+			gs := storage.ExportGenesis(w.f.Ctx, c.App.StorageKeeper)
+			fresh := c.Fork(w.f.Height(), w.f.Time())
+			storage.InitGenesis(fresh.Ctx, c.App.StorageKeeper, *gs)
+			sum := new(big.Int)
+			for _, col := range c.App.StorageKeeper.GetAllCollateral(fresh.Ctx) {
+				sum.Add(sum, big.NewInt(col.Amount))
+				if _, found := c.App.StorageKeeper.GetProviders(fresh.Ctx, col.Address); !found {
+					w.logf("export the storage genesis and import it into a fresh store")
+					failf(rt, rec, "C15/genesis-roundtrip/provider-missing", w.trace, "after export/import a collateral of %d is recorded for %s but there is no provider record", col.Amount, short(col.Address))
+				}
+			}
+			if bal := w.f.Snapshot().Get(collateralAddr, "ujkl").BigInt(); bal.Cmp(sum) != 0 {
+				w.logf("export the storage genesis and import it into a fresh store")
+				failf(rt, rec, "C15/genesis-roundtrip/escrow-vs-records", w.trace, "after export/import of the storage genesis the recorded collaterals sum to %s, the escrow account (carried over by the bank module) holds %s", sum, bal)
+			}
+		}
 		rec.Case(w.shutdownAfterPriceChange, ev.Hash(w.trace...), func() interface{} { return w.trace })
 	})
 }
